@@ -102,6 +102,18 @@ pub fn dag_case(ctx: &mut Ctx, adj: &Vec<Vec<usize>>, roots: &Vec<usize>, origin
             }
         }
     }
+    // the whole code path (`Model/Dfs.lean`: the iterative depth-first visibility walks with their
+    // `active` set, then the loop), proved equivalent to the above by `c09_index_dfs`
+    if resp["oracle"] == "ok" && !resp["index"].is_null() {
+        ctx.report.count("dfs_exact_compared");
+        if resp["index"] != obs {
+            ctx.report.count("disagreements");
+            if ctx.report.disagreements.len() < 5 {
+                ctx.report.disagreements.push(json!({"kind": "concrete visibility walk + get_groups model (Model/Dfs.lean, Model/Kahn.lean) and implementation differ",
+                    "case": case, "implementation": obs, "model": resp["index"]}));
+            }
+        }
+    }
     record(ctx, case, &resp, &obs, "dag");
 }
 
